@@ -285,6 +285,12 @@ func (ex *Exec) formatArg(fr *frame, verb byte, fl fmtFlags, a iface) value {
 		return a.t.String()
 	}
 	// error / Stringer
+	if verb == 'w' {
+		// fmt.Errorf: %w formats its error operand like %v
+		if m := ex.methodOf(a.t, "Error"); m != nil && m.Signature.Params().Len() == 0 {
+			verb = 'v'
+		}
+	}
 	switch verb {
 	case 'v', 's', 'q', 'x', 'X':
 		if m := ex.methodOf(a.t, "Error"); m != nil && m.Signature.Params().Len() == 0 {
